@@ -83,7 +83,7 @@ def check_lookup(case, ctx):
         except R.Invalid:
             continue
         w = BaseWallet.from_bip39_seed_bytes(seed, case["testnet"])
-        st_, node = call(w.by_path, s)
+        st_, node = call(w.by_path, path=s) if tag == "wallet-2" else call(w.by_path, s)
         if st_ == "exc":
             raise Violation("C17/lookup/raised", "by_path(%r) raised %r" % (s, node))
         vprv, vpub = (R.TPRV, R.TPUB) if case["testnet"] else (R.XPRV, R.XPUB)
